@@ -72,6 +72,15 @@ func validateImportBody(body Body) error {
 func validateBlipBody(ctx context.Context, rawBody []byte, doc *Document) error {
 	// Prevent disallowed internal properties from being used
 	disallowed := []string{base.SyncPropertyName, BodyId, BodyRev, BodyDeleted, BodyRevisions}
+	// A key may be spelled with \u escapes ("\u005fsync"), which the byte scan below cannot see
+	if bytes.Contains(rawBody, []byte(`\u`)) {
+		body := doc.Body(ctx)
+		for _, prop := range disallowed {
+			if _, ok := body[prop]; ok {
+				return base.NewHTTPError(http.StatusNotFound, "top-level property '"+prop+"' is a reserved internal property")
+			}
+		}
+	}
 	for _, prop := range disallowed {
 		// Only unmarshal if raw body contains the disallowed property
 		if bytes.Contains(rawBody, []byte(`"`+prop+`"`)) {
